@@ -71,7 +71,7 @@ def rand_conv(rng):
 def rand_ln(rng, affine_only=False):
     shape = rng.choice([[8], [16], [4, 6], [3, 4, 5], [32]])
     affine = True if affine_only else rng.random() < 0.8
-    return {"t": "ln", "shape": shape, "affine": affine, "bias": affine and rng.random() < 0.7, "eps": rng.choice([1e-5, 1e-3, 1e-6])}
+    return {"t": "ln", "shape": shape, "affine": affine, "bias": affine and rng.random() < 0.7, "eps": rng.choice([1e-5, 1e-3, 1e-6, 0.1])}
 
 
 def rand_other(rng):
